@@ -104,9 +104,23 @@ Local Notation bpassK := (@bpass K 0 1 +%R *%R divK eq0K P ccs).
 Local Notation bensureK := (@bensure K 0 1 +%R *%R divK eq0K P ccs).
 Local Notation fstepK := (@fstep K 0 1 +%R *%R divK eq0K P genof ccs).
 
-Definition Bt_ok (st : bstateK) : Prop :=
-  [/\ size (bt st) = n, size (sc st) = n
-    & forall c t, (c.+1 < n)%N -> nth None (bt st) c = Some t -> Bgood c t].
+Definition bt_good (b : seq (option (seq bool -> nat -> K))) : Prop :=
+  size b = n /\ forall c t, (c.+1 < n)%N -> nth None b c = Some t -> Bgood c t.
+Definition Bt_ok (st : bstateK) : Prop := bt_good (bt st) /\ size (sc st) = n.
+
+Lemma bt_good_set b d t :
+  bt_good b -> (d < n)%N -> ((d.+1 < n)%N -> Bgood d t) -> bt_good (set_nth None b d (Some t)).
+Proof.
+move=> [hs hg] hd ht; split; first by rewrite size_set_nth hs; apply/maxn_idPr.
+move=> c t' hc; rewrite nth_set_nth /=; case: eqP => [e|_]; last exact: hg.
+by case=> <-; rewrite e; apply: ht; rewrite -e.
+Qed.
+
+Lemma bt_good_setN b d : bt_good b -> (d < n)%N -> bt_good (set_nth None b d None).
+Proof.
+move=> [hs hg] hd; split; first by rewrite size_set_nth hs; apply/maxn_idPr.
+by move=> c t' hc; rewrite nth_set_nth /=; case: eqP => [_|_] //; apply: hg.
+Qed.
 
 Lemma tscale_good c t s :
   s != 0 -> Bgood c t -> Bgood c (tscaleK (cc_fw (cc_ c)) t s).
@@ -124,67 +138,47 @@ Lemma bstep_ok c st :
       (0 < c)%N -> isSome (nth None (bt (bstepK c st)) c.-1)
     & forall d, isSome (nth None (bt st) d) -> isSome (nth None (bt (bstepK c st)) d)].
 Proof.
-move=> hc [hsb hss hgood] havail.
-rewrite /bstep; case: ifP => [/andP[hc0 hsome]|hfresh].
-  by move=> he; split.
-set last := (c.+1 == n).
-have [prevB [hprev hsel]] : exists prevB,
-    (if last then Some (fun _ _ => 1) else nth None (bt st) c) = Some prevB /\
+move=> hc [hgood hss] havail.
+case hearly: ((0 < c)%N && isSome (nth None (bt st) c.-1)).
+  by rewrite /bstep hearly => he; split=> //; case/andP: hearly.
+have [prevB hsel [lam hlam hB]] : exists2 prevB,
+    (if c.+1 == n then Some (fun _ _ => 1) else nth None (bt st) c) = Some prevB &
     (exists2 lam : K, lam != 0 & forall x i, size x = cc_k (cc_ c) -> (i < tn)%N ->
-       (if last then 1 else prevB (mask (cc_fmask (cc_ c)) x) i)
+       (if c.+1 == n then 1 else prevB (mask (cc_fmask (cc_ c)) x) i)
         = lam * bwdx (drop c.+1 ccs) (mask (cc_fmask (cc_ c)) x) i).
-  case hl: last.
-    exists (fun _ _ => 1); split=> //; exists 1; first exact: oner_neq0.
-    move=> x i _ _; move/eqP: hl => hl.
-    by rewrite drop_oversize ?mul1r // -/n hl.
-  move: havail; rewrite -/last hl /=.
-  case hbt: (nth None (bt st) c) => [t|] // _.
-  exists t; split=> //.
+  case hl: (c.+1 == n).
+    exists (fun _ _ => 1) => //; exists 1; first exact: oner_neq0.
+    by move=> x i _ _; rewrite drop_oversize ?mul1r // -/n -(eqP hl).
+  move: havail; rewrite hl /=; case hbt: (nth None (bt st) c) => [t|] // _.
+  exists t => //.
   have hc1 : (c.+1 < n)%N by rewrite ltn_neqAle hl hc.
-  case: (hgood c t hc1 hbt) => lam hlam ht; exists lam => // x i hx hi.
+  case: hgood => _ /(_ c t hc1 hbt) [lam hlam ht]; exists lam => // x i hx hi.
   by rewrite ht // size_fproj.
-rewrite hprev /=.
-case: hsel => lam hlam hB.
-case hs0: (_ == 0); first by rewrite orbT.
-rewrite orbF => herr; move/negbT: hs0 => hs.
-set cs := bcolK (cc_ c) last prevB in hs *.
+rewrite /bstep hearly hsel /=.
+set cs := bcolK (cc_ c) (c.+1 == n) prevB.
+move/negbT; rewrite negb_or => /andP[/negbTE he hs].
 have hcur : forall sigma j, (j < tn)%N -> cs.1 sigma j = lam * bwdx (drop c ccs) sigma j.
   exact: bcol_spec.
-split=> //=.
-- split=> /=.
-  + case: ifP => _; case: ifP => _; rewrite ?size_set_nth ?hsb //.
-    * by apply/maxn_idPr; rewrite -ltnS prednK // ?(leq_trans _ hc) // ?hsb; case: (c) hfresh.
-    * by apply/maxn_idPr; rewrite hsb.
-    * rewrite size_set_nth; apply/maxn_idPr; rewrite (maxn_idPr _) ?hsb //.
-      by rewrite (leq_trans _ hc) // leq_pred.
-  + by rewrite size_set_nth hss; apply/maxn_idPr.
-  + move=> d t hd.
-    have hlastF : (d == c) -> last = false.
-      by move/eqP=> e; apply/negbTE; rewrite /last -e neq_ltn hd.
-    case h0c: (0 < c)%N.
-      rewrite nth_set_nth /=; case: eqP => [e|ne].
-        case=> <-; exists (lam / cs.2); first by rewrite mulf_neq0 ?invr_eq0.
-        move=> sigma j hsg hj; rewrite /tscale memoE //.
-          by rewrite hcur // e prednK // mulrAC.
-        case: (shape (ltnW hd)) => _ _ /(_ hd) <-.
-        by rewrite hsg e prednK.
-      case hl: last.
-        by apply: hgood.
-      rewrite nth_set_nth /=; case: eqP => [e|ne2]; last exact: hgood.
-      case=> <-; rewrite e; apply: tscale_good => //.
-      move: hprev; rewrite hl => hp.
-      by apply: (hgood c prevB) => //; rewrite -e.
-    case hl: last; first exact: hgood.
-    rewrite nth_set_nth /=; case: eqP => [e|ne2]; last exact: hgood.
-    case=> <-; rewrite e; apply: tscale_good => //.
-    move: hprev; rewrite hl => hp.
-    by apply: (hgood c prevB) => //; rewrite -e.
-- by move=> h0c; rewrite h0c nth_set_nth /= eqxx.
-- move=> d hd.
-  have h1 : isSome (nth None (if last then bt st
-              else set_nth None (bt st) c (Some (tscaleK (cc_fw (cc_ c)) prevB cs.2))) d).
-    by case: ifP => // _; rewrite nth_set_nth /=; case: eqP.
-  by case: ifP => // _; rewrite nth_set_nth /=; case: eqP.
+set bt1 := (if c.+1 == n then _ else _).
+have hbt1 : bt_good bt1.
+  rewrite /bt1; case hl: (c.+1 == n) => //.
+  apply: bt_good_set => // hc1; apply: tscale_good => //.
+  move: hsel; rewrite hl => hbt.
+  by case: hgood => _ /(_ c prevB hc1 hbt).
+have hmono1 : forall d, isSome (nth None (bt st) d) -> isSome (nth None bt1 d).
+  by rewrite /bt1 => d; case: ifP => // _; rewrite nth_set_nth /=; case: eqP.
+split=> //.
+- split=> /=; last by rewrite size_set_nth hss; apply/maxn_idPr.
+  case h0: (0 < c)%N => //.
+  have hc' : (c.-1 < n)%N by apply: leq_ltn_trans hc; exact: leq_pred.
+  apply: bt_good_set => // hc1.
+  exists (lam / cs.2); first by rewrite mulf_neq0 ?invr_eq0.
+  move=> sigma j hsg hj; rewrite /tscale memoE //.
+    by rewrite hcur // prednK // mulrAC.
+  by case: (shape hc') => _ _; rewrite prednK // => /(_ hc) <-.
+- by move=> h0 /=; rewrite h0 nth_set_nth /= eqxx.
+- move=> d hd /=; case: ifP => _; last exact: hmono1.
+  by rewrite nth_set_nth /=; case: eqP => // _; apply: hmono1.
 Qed.
 
 End Run.
